@@ -10,7 +10,7 @@ from .. import sym
 from ..evalfn import SELF, property_backing
 from ..source import AnalysisError
 from ..sym import canon
-from .common import (CORE, G, GX, plain, increments_by, loop_conditions, store_increment, Roles, cur, dominates, final_value, fld, guard_subset, has_lit, hist_fill, hist_store, is_entry, lits, loops_prefix,
+from .common import (CORE, G, GX, plain, truth_equiv, working_for, increments_by, loop_conditions, store_increment, Roles, cur, dominates, final_value, fld, guard_subset, has_lit, hist_fill, hist_store, is_entry, lits, loops_prefix,
                      mentions_field, mentions_param, postdominates, series_name, short)
 
 SEC_CLASSES = ["SecurityBase", "Security", "FixedIncomeSecurity", "CouponPayingSecurity", "HedgeSecurity", "CouponPayingHedgeSecurity"]
@@ -275,14 +275,10 @@ def _outlay_flush(chk, pid, S, fi, host, R):
     chk.need(flushes, "%s no longer records outlays" % host)
     for e, (ser, idx, val, aug) in flushes:
         acc = None
-        for n in sym.walk(val):
+        inc = store_increment(e)
+        for n in sym.walk(inc if inc is not None else val):
             if n[0] == "fld" and canon(n[1]) == canon(SELF):
                 acc = n[2]
-        inc = store_increment(e)
-        if inc is not None and acc is None:
-            for n in sym.walk(inc):
-                if n[0] == "fld" and canon(n[1]) == canon(SELF):
-                    acc = n[2]
         ok_aug = inc is not None and acc is not None and equal(inc, cur(e, SELF, acc))
         if acc is not None and pid == "C07":
             accv = cur(e, SELF, acc)
@@ -480,7 +476,7 @@ def strategy_update(chk, pid):
             z = zeroed[0]
             # the zeroing and the accumulation sit under the same gate: compare with the gate of the reference sum
             refsum_guards = [n[2] for n in sym.walk(ref_cap) if n[0] == "sum"]
-            zg = tuple(l for l in lits(z.guard) if sym.contains(l[0], lambda n: n[0] == "elem") or sym.contains(l[0], lambda n: n == DATE))
+            zg = tuple(l for l in lits(plain(z.guard)) if sym.contains(l[0], lambda n: n[0] == "elem") or sym.contains(l[0], lambda n: n == DATE))
             ok = any(set(norm_versions(rg)) == set(norm_versions(tuple(sorted(zg, key=repr)))) for rg in refsum_guards)
         chk.ob("C02.R3", ok, CORE, host, "sweep-debit", "every child whose cash is swept is zeroed under the same condition (security child, new date)",
                where=zeroed[0].where if zeroed else fi.where, expected="c.capital = 0 under c._issec and newpt", found=sym.fmt_guard(zeroed[0].guard) if zeroed else "no zeroing")
@@ -563,7 +559,7 @@ def strategy_update(chk, pid):
             numer_field = R.NOTIONAL if is_fi else R.VALUE
             elem_lits = [l for l in plain(w.guard) if sym.contains(l[0], lambda n: n == c) and not sym.contains(l[0], lambda n: n[0] == "sum")]
             skip = canon(("and", ("fld", c, "_issec", 0), ("not", ("fld", c, R.NEEDUPDATE, 0))))
-            okf = all(canon(_strip_all_versions(l[0])) == canon(skip) and l[1] is False for l in elem_lits)
+            okf = truth_equiv([(canon(_strip_all_versions(l[0])), l[1]) for l in elem_lits], ("not", skip), [("fld", c, "_issec", 0), ("fld", c, R.NEEDUPDATE, 0)])
             chk.ob("C01.R3", okf, CORE, host, "weight-loop-filter:%s" % ("fi" if is_fi else "mv"),
                    "weights are recomputed for exactly the children whose values were recomputed (only flat, dormant securities are skipped)", where=w.where,
                    expected="skip only when c._issec and not c.%s" % R.NEEDUPDATE, found=sym.fmt_guard(elem_lits)[:200])
@@ -792,7 +788,7 @@ def _reset_rules(chk, pid, S, fi, host, R):
                where=fi.where)
         # covers every date change: the guard is exactly `now != 0 and date != now` (the first update has nothing to reset)
         for w in good:
-            extra = [l for l in lits(w.guard) if l not in ((date_changed, False), (now_zero, False)) and l != (canon(("zero", sym._abs_norm(sym.to_rat(fld(SELF, "now"))))), False)]
+            extra = [l for l in lits(plain(w.guard)) if l not in ((date_changed, False), (now_zero, False)) and l != (canon(("zero", sym._abs_norm(sym.to_rat(fld(SELF, "now"))))), False)]
             chk.ob("C03.R2", not extra, CORE, host, "reset-on-every-date-change:%s" % field, "%s is handled on every date change, not only on some" % field, where=w.where,
                    expected="no further condition", found=sym.fmt_guard(extra))
     # the clock moves after the test
@@ -862,7 +858,7 @@ def _paper_rules(chk, pid, S, fi, host, R):
         for e in paper_calls:
             g = lits(e.guard)
             newpt_ok = any(p and sym.contains(a, lambda n: n == DATE) for a, p in g) or sym.lit_holds(g, date_changed, False)
-            extra = [l for l in g if l != (pt, True) and not sym.contains(l[0], lambda n: n == DATE)]
+            extra = [l for l in lits(plain(e.guard)) if l != (pt, True) and not sym.contains(l[0], lambda n: n == DATE)]
             chk.ob("C09.R3" if pid == "C09" else "C08.R2", newpt_ok, CORE, host, "shadow-step-only-on-new-date:%s" % e.name,
                    "the shadow copy is stepped once per date (only when the date is new)", where=e.where, found=sym.fmt_guard(e.guard))
             if pid == "C09":
@@ -1218,6 +1214,10 @@ def ownership_rules(chk, pid, roles=("CAPITAL", "POSITION", "NET_FLOWS", "LAST_F
                                 found[r] += 1
                                 chk.site()
                                 ok = (f.cls, f.name) in ALLOWED_WRITERS[r]
+                                if not ok:
+                                    # a private helper inherits the role of the function(s) it was extracted from
+                                    hs = working_for(chk.prog, f)
+                                    ok = bool(hs) and all((h.cls, h.name) in ALLOWED_WRITERS[r] for h in hs)
                                 rule = {"CAPITAL": "C02.R4", "POSITION": "C02.R4", "NET_FLOWS": "C03.R3", "LAST_FEE": "C07.R3"}[r]
                                 chk.ob(rule, ok, f.module, f.qual, "writer:%s" % names[r],
                                        "%s may be written only by its enumerated owners (%s)" % (names[r], ", ".join("%s.%s" % k for k in ALLOWED_WRITERS[r])),
@@ -1320,22 +1320,51 @@ def strategy_allocate_rules(chk, pid):
             chk.ob("C02.R2", ob_.get("amount") is not None and canon(ob_["amount"]) == canon(amount), CORE, host, "transfer-amount", "the strategy is credited with the allocated amount",
                    where=o.where, found=short(ob_.get("amount", sym.NONE)))
     if pid in ("C03", "C07"):
+        # decided per scenario (root / non-root), whether the code branches on it or computes the flag
+        def _root_atoms(v, acc):
+            for n in sym.walk(v):
+                if n[0] in ("eq", "is", "cmp") and (mentions_field(n, "parent", SELF) or mentions_field(n, "root", SELF)) and not sym.contains(n, lambda m: m[0] == "ite"):
+                    cn = canon(n)
+                    if isinstance(cn, tuple) and cn and cn[0] == "not":
+                        cn = cn[1]
+                    if cn not in acc:
+                        acc.append(cn)
+        atoms = []
         for p in par:
-            gp = G(p)
-            pb = bound_args(p, chk.prog)
-            fl = pb.get("flow", sym.TRUE)
-            is_root = any(pol and a[0] in ("cmp", "eq", "is") and mentions_field(a, "parent", SELF) for a, pol in gp)
-            not_root = any((not pol) and a[0] in ("cmp", "eq", "is") and mentions_field(a, "parent", SELF) for a, pol in gp)
+            fl = bound_args(p, chk.prog).get("flow", sym.TRUE)
+            _root_atoms(canon(fl), atoms)
+            for a, pol in plain(p.guard):
+                _root_atoms(canon(a), atoms)
+        if not atoms:
+            chk.ob("C03.R4", False, CORE, host, "adjust-flow:parent-debit-undistinguished", "capital handed to a sub-strategy is a flow for the child and a non-flow for its (non-root) parent",
+                   where=par[0].where, expected="the debit must distinguish a root (flow) from a non-root parent (non-flow)", found="no test of parent/root")
+        for is_root in (True, False):
             if pid == "C07" and is_root:
                 continue
-            if is_root:
-                ok, exp, key = canon(fl) == canon(sym.TRUE), "flow=True (the root pays itself: net flow zero)", "adjust-flow:root-self-debit"
-            elif not_root:
-                ok, exp, key = canon(fl) == canon(sym.FALSE), "flow=False (the parent is another strategy: funding a child is not a flow of the parent)", "adjust-flow:non-root-parent-debit"
-            else:
-                ok, exp, key = False, "the debit must distinguish a root (flow) from a non-root parent (non-flow)", "adjust-flow:parent-debit-undistinguished"
-            chk.ob("C03.R4", ok, CORE, host, key, "capital handed to a sub-strategy is a flow for the child and a non-flow for its (non-root) parent", where=p.where, expected=exp,
-                   found="flow=%s" % short(fl), sample={"flow": short(fl)})
+            sc = tuple((a, is_root) for a in atoms)
+            hits = []
+            for p in par:
+                g = sym.sat(tuple(G(p)) + sc)
+                if sym.inconsistent(g):
+                    continue
+                fl = sym.restrict(bound_args(p, chk.prog).get("flow", sym.TRUE), g)
+                try:
+                    if sym.lit_holds(g, fl, True):
+                        fl = sym.TRUE
+                    elif sym.lit_holds(g, fl, False):
+                        fl = sym.FALSE
+                except Exception:
+                    pass
+                hits.append((p, fl))
+            key = "adjust-flow:root-self-debit" if is_root else "adjust-flow:non-root-parent-debit"
+            exp = "flow=True (the root pays itself: net flow zero)" if is_root else "flow=False (the parent is another strategy: funding a child is not a flow of the parent)"
+            want = sym.TRUE if is_root else sym.FALSE
+            if atoms and not hits:
+                chk.ob("C03.R4", False, CORE, host, key, "capital handed to a sub-strategy is a flow for the child and a non-flow for its (non-root) parent", where=fi.where, expected=exp,
+                       found="no debit on this path")
+            for p, fl in hits:
+                chk.ob("C03.R4", canon(fl) == canon(want), CORE, host, key, "capital handed to a sub-strategy is a flow for the child and a non-flow for its (non-root) parent", where=p.where,
+                       expected=exp, found="flow=%s" % short(fl), sample={"flow": short(fl)})
         if pid == "C03":
             for o in own:
                 fl = bound_args(o, chk.prog).get("flow", sym.TRUE)
